@@ -173,13 +173,15 @@ PROPS = {
         ],
     },
     "C13": {
-        "units": [], "kani_complete": ["status"], "kani_bounded_quick": [], "kani_bounded_thorough": [],
-        "design_ref": "DESIGN.md section 5 / C13",
+        "units": ["swgaq", "swgar", "swmcq", "swmcr", "swgi", "swhs"], "kani_complete": ["status"], "kani_bounded_quick": [], "kani_bounded_thorough": [],
+        "design_ref": "DESIGN.md section 0.4 (C13) and section 5 / C13",
         "not_covered": [
-            "integer map keys, ascending order, omitted optionals, defaults, duplicate / missing members, unknown "
-            "keys: all of that is the expansion of serde_workaround! driven by serde's data model and ciborium "
-            "(no contract language for serde's visitor protocol; Kani on ciborium with symbolic bytes is intractable). "
-            "A renumbered member is NOT detected",
+            "the six messages are verified on rustc's expansion of serde_workaround! (vx/expand.py, produced from the working tree on "
+            "every run): Serialize side -- integer keys the CTAP specification assigns, ascending, absent optional members omitted, "
+            "announced map length -- against a trusted model of serde's Serializer / SerializeMap (call order = entry order); "
+            "Deserialize side -- see the unit reports for what is under contract",
+            "the encodings of the member values themselves (derived Serialize / Deserialize of the field types) and the CBOR byte level "
+            "(ciborium) are assumed; the extension input / output structs with text keys are serde derives and are not covered",
         ],
     },
     "C15": {
